@@ -230,6 +230,59 @@ theorem f64_rounds_nonneg : ∀ q, 0 ≤ q → 0 ≤ Arith.f64.rnd q := by
 theorem weighF64_nonneg (ts : List Target) : ∀ t ∈ weighA Arith.f64 ts, 0 ≤ t.weight :=
   weighA_nonneg Arith.f64 f64_rounds_nonneg ts
 
+/-! ## sentence 1 for the code as coded, in every arithmetic -/
+
+/-- **"Fixed weights are honoured as given" — exactly, in every arithmetic, float64 included:** when the sum
+the code computed does not trigger a normalisation (it did not overflow, is not above 1, and is not below 1
+with every target fixed), a target whose requested weight is a value of the arithmetic (`rnd fw = fw`: a
+float64 for `Arith.f64`) receives exactly that weight — `fw / 1.0 / 1.0`, no rounding error at all. -/
+theorem fixed_honoured_as_coded (A : Arith) (ts : List Target) (s : Rat)
+    (hs : sumLoop A ((ts.filter (fun t => decide (0 < t.fixedWeight))).map (·.fixedWeight)) = some s)
+    (hno : ¬ (1 < s ∨ (nFixed ts = ts.length ∧ s < 1)))
+    (t : Target) (ht : t ∈ weighA A ts) (hf : 0 < t.fixedWeight) (hrep : A.rnd t.fixedWeight = t.fixedWeight) :
+    t.weight = t.fixedWeight := by
+  unfold weighA unitSum weighWith at ht
+  rw [hs] at ht
+  simp only at ht
+  split at ht
+  · rename_i h0
+    -- no fixed weight at all contradicts `0 < t.fixedWeight`
+    obtain ⟨x, hx, rfl⟩ := List.mem_map.mp ht
+    have : x ∈ ts.filter (fun t => decide (0 < t.fixedWeight)) := List.mem_filter.mpr ⟨hx, by simpa using hf⟩
+    have hl : 0 < (ts.filter (fun t => decide (0 < t.fixedWeight))).length := List.length_pos_of_mem this
+    unfold nFixed at h0
+    omega
+  · obtain ⟨x, _, rfl⟩ := List.mem_map.mp ht
+    have hfx : 0 < x.fixedWeight := by
+      by_cases h : 0 < x.fixedWeight
+      · exact h
+      · simp only [h, if_false] at hf
+    simp only [hfx, if_true] at hrep ⊢
+    simp only [div_one, hrep]
+
+/-- **"The remaining targets share the remainder equally" — exactly, in every arithmetic:** all targets without
+a fixed weight receive the same weight (one value `dynamic` is computed and stored in each). -/
+theorem dynamic_share_equal_as_coded (A : Arith) (ts : List Target) (t u : Target)
+    (ht : t ∈ weighA A ts) (hu : u ∈ weighA A ts) (hft : ¬ 0 < t.fixedWeight) (hfu : ¬ 0 < u.fixedWeight) :
+    t.weight = u.weight := by
+  unfold weighA weighWith at ht hu
+  simp only at ht hu
+  split at ht
+  · rename_i h0
+    rw [if_pos h0] at hu
+    obtain ⟨x, _, rfl⟩ := List.mem_map.mp ht
+    obtain ⟨y, _, rfl⟩ := List.mem_map.mp hu
+    rfl
+  · rename_i h0
+    rw [if_neg h0] at hu
+    obtain ⟨x, _, rfl⟩ := List.mem_map.mp ht
+    obtain ⟨y, _, rfl⟩ := List.mem_map.mp hu
+    have hx : ¬ 0 < x.fixedWeight := by
+      intro h; apply hft; simp only [h, if_true]
+    have hy : ¬ 0 < y.fixedWeight := by
+      intro h; apply hfu; simp only [h, if_true]
+    simp only [hx, hy, if_false]
+
 /-! ## slots and ring in every arithmetic: never starved, never picked — also in float64 -/
 
 theorem slotCountA_exact (w : Rat) : slotCountA Arith.exact w = slotCount w := rfl
@@ -544,6 +597,12 @@ example : (match newTableA Arith.f64 ⟨fun s => some s, fun _ => true⟩
     [{ cmd := .add, src := ['/'], dst := ['a'], weight := roundF64 (1/10) }, { cmd := .add, src := ['/'], dst := ['b'] }] with
     | .ok t => t.map (fun kv => kv.2.map (fun r => r.targets.map (·.weight)))
     | .error _ => []) = [[[roundF64 (1/10), roundF64 (1 - roundF64 (1/10))]]] := by decide +kernel
+/-- the hypotheses of `fixed_honoured_as_coded` hold for 0.1 + 0.3 next to two dynamic targets in float64: the
+float sum is below 1, not every target is fixed, and the requested weights are float64 values -/
+example : (match sumLoop Arith.f64 [roundF64 (1/10), roundF64 (3/10)] with
+    | some s => decide (¬ (1 < s ∨ ((2 : Nat) = 4 ∧ s < 1)))
+    | none => false) = true ∧
+    Arith.f64.rnd (roundF64 (1/10)) = roundF64 (1/10) := by decide +kernel
 example : f64_rounds_nonneg (1/3) (by decide +kernel) = f64_rounds_nonneg (1/3) (by decide +kernel) := rfl
 /-- ring 0 1 0 (two slots for target 0): two of the three RNG values select target 0 -/
 example : (List.range 3).countP (fun (k : Nat) => decide (rndPick [some 0, some 1, some 0] (fun _ => (k : Int)) = .ok (some 0))) = 2 := by
